@@ -838,7 +838,11 @@ impl<'layout, 'out> TableWriter<'layout, 'out> {
             self.write_dtpmod_relocation::<A>(got_address, dynamic_symbol_index)?;
         }
         let offset_entry = self.take_next_got_entry()?;
-        if let Some(dynamic_symbol_index) = res.dynamic_symbol_index {
+        // A symbol that is exported but cannot be interposed (e.g. protected visibility) is defined
+        // by us, so its offset is known now and gets written below.
+        if let Some(dynamic_symbol_index) = res.dynamic_symbol_index
+            && (res.flags.is_interposable() || res.flags.is_dynamic())
+        {
             if res.flags.is_interposable() {
                 self.write_dtpoff_relocation::<A>(
                     got_address + crate::elf::TLS_OFFSET_OFFSET,
